@@ -5,6 +5,7 @@ import ast
 from typing import List, Set
 
 from fdlstatic import cfg as cfg_lib
+from fdlstatic import roles
 from fdlstatic.ctx import Ctx, assigned_names, kwarg
 from fdlstatic.model import AnalysisError, FuncInfo, unparse, walk_function, walk_stmts
 from fdlstatic.report import RuleSet
@@ -442,6 +443,97 @@ def kd_rules(ctx: Ctx, rs: RuleSet, L: str, helpers):
            ctx.loc(f, f.node))
 
 
+def same_named_keyword(ctx: Ctx, rs: RuleSet):
+  """`f(1, a=2)` is legal for `def f(a, /, **kwargs)`: a keyword stored under a
+
+  name that also names a positional-only or *args parameter is an extra
+  keyword argument, and a positional-only value stored by index wins over it.
+  """
+  from fdlstatic.rules.sigrules import reachable_for_kind
+  rule = 'PK.same-named-keyword'
+  rs.declare(rule, 'ordered_arguments passes str keys that name a '
+             'positional-only / *args parameter on as **kwargs entries, and '
+             'reads positional-only values by index first', 2)
+  f = ctx.func('fiddle._src.config.ordered_arguments')
+  g = ctx.cfg(f)
+  # the loop over the raw argument store that collects **kwargs entries
+  for n in g.nodes():
+    if g.kind[n] != 'for':
+      continue
+    L = g.stmt[n]
+    if not (unparse(L.iter).endswith('.__arguments__.items()') and isinstance(
+        L.target, ast.Tuple) and len(L.target.elts) == 2):
+      continue
+    key_v, val_v = unparse(L.target.elts[0]), unparse(L.target.elts[1])
+    pvars = roles.assigned_from(f, lambda e: isinstance(e, ast.Call) and
+                                isinstance(e.func, ast.Attribute) and
+                                e.func.attr == 'get' and unparse(
+                                    e.func.value).endswith('.parameters'))
+    pv = next(iter(pvars)) if pvars else None
+    body = g.reach([m for m, lab in g.succ[n] if lab == 'iter'], blocked={n},
+                   labels=cfg_lib.NO_EXC)
+    stores = [m for m in body if isinstance(g.stmt[m], ast.Assign) and
+              g.kind[m] == 'stmt' and isinstance(
+                  g.stmt[m].targets[0], ast.Subscript) and unparse(
+                      g.stmt[m].targets[0].slice) == key_v and unparse(
+                          g.stmt[m].value) == val_v]
+    starts = [m for m, lab in g.succ[n] if lab == 'iter']
+    reach = {}
+    for kind in (None, 'VAR_KEYWORD', 'VAR_POSITIONAL', 'POSITIONAL_ONLY',
+                 'POSITIONAL_OR_KEYWORD', 'KEYWORD_ONLY'):
+      reach[kind] = any(reachable_for_kind(g, starts, s_, kind, pv, {n})
+                        for s_ in stores)
+    need = [k for k in (None, 'VAR_KEYWORD', 'VAR_POSITIONAL',
+                        'POSITIONAL_ONLY') if not reach[k]]
+    wrong = [k for k in ('POSITIONAL_OR_KEYWORD', 'KEYWORD_ONLY') if reach[k]]
+    ok = bool(stores) and not need and not wrong
+    rs.check(ok, rule, f'{f.qualname}:kwargs-loop',
+             'str keys naming no parameter, **kwargs, *args or a '
+             'positional-only parameter are passed on as keywords' if ok else
+             f'a str key whose name belongs to a parameter of kind {need} is '
+             'never passed on as a keyword argument: fdl.Config(f, 1, a=2) for '
+             'def f(a, /, **kwargs) builds f(1) and loses a=2'
+             if need else f'keys of kind {wrong} are emitted twice',
+             ctx.loc(f, L))
+  # positional-only values: the index lookup is consulted before the name
+  ok = False
+  for n in g.nodes():
+    if g.kind[n] != 'if':
+      continue
+    t = g.stmt[n].test
+    if 'POSITIONAL_ONLY' in unparse(t) and any(
+        isinstance(c, ast.Compare) and isinstance(c.ops[0], ast.In) and
+        unparse(c.comparators[0]).endswith('.__arguments__')
+        for c in ast.walk(t)):
+      # by-name reads of the store happen only on the false branch
+      by_name = [m for m in g.nodes() if g.kind[m] == 'stmt' and any(
+          isinstance(e, ast.Subscript) and isinstance(e.ctx, ast.Load) and
+          unparse(e.value).endswith('.__arguments__') and isinstance(
+              e.slice, ast.Name) and e.slice.id in _param_name_vars(f)
+          for e in cfg_lib.walk_node(g, m))]
+      t_reach = g.reach([x for x, lab in g.succ[n] if lab == 'true'],
+                        blocked={n} | {x for x in g.nodes()
+                                       if g.kind[x] == 'for'},
+                        labels=cfg_lib.NO_EXC)
+      ok = bool(by_name) and not any(m in t_reach for m in by_name)
+  rs.check(ok, rule, f'{f.qualname}:index-first',
+           'a positional-only value stored by index is read by index; the '
+           'by-name lookup is only the fallback' if ok else
+           'for a positional-only parameter the by-name lookup is taken even '
+           'when the index is set: a same-named keyword replaces the '
+           'positional value', ctx.loc(f, f.node))
+
+
+def _param_name_vars(f) -> Set[str]:
+  out = set()
+  for L in walk_function(f.node):
+    if isinstance(L, ast.For) and '.parameters.items()' in unparse(L.iter):
+      for x in ast.walk(L.target):
+        if isinstance(x, ast.Name):
+          out.add(x.id)
+  return out
+
+
 def pk_rule(ctx: Ctx, rs: RuleSet):
   rule = 'PK.kind-coverage'
   rs.declare(rule, 'each storage/call-form translation function '
@@ -715,6 +807,7 @@ def signature_tables(ctx: Ctx, rs: RuleSet, rule='IDMEMO.signature-tables'):
 
 def run(ctx: Ctx, rs: RuleSet, tier: str):
   signature_tables(ctx, rs)
+  same_named_keyword(ctx, rs)
   from fdlstatic.rules import c19
   c19.cache_premise(ctx, rs, 'CACHE.signature',
                     ['fiddle._src.signatures._signature_cache'])
